@@ -278,7 +278,7 @@ def check_consumer(case):
         return r
     # The operator object itself goes to the app (so that ITS .N is what the solver works through); lamda is taken
     # relative to ||A||^2, so conditioning depends on case["lamda"] only: kappa <= 1 + 1/lamda.
-    tl = 2e-4 if dt in ("complex64", "float32") else 1e-7
+    tl = 2e-4 if dt in ("complex64", "float32") else 1e-6
     G = M.conj().T @ M
     for rnd, (lam, yseed) in enumerate(((case["lamda"] * nrm ** 2, case["yseed"]),
                                         (2.5 * case["lamda"] * nrm ** 2, case["yseed"] + 1))):
@@ -287,7 +287,12 @@ def check_consumer(case):
         try:
             with warnings.catch_warnings():
                 warnings.simplefilter("ignore")
-                app = sp_.app.LinearLeastSquares(op, y.copy(), lamda=lam, max_iter=4 * n + 20, tol=0, show_pbar=False)
+                if rnd == 0:
+                    app = sp_.app.LinearLeastSquares(op, y.copy(), lamda=lam, max_iter=4 * n + 20, tol=0, show_pbar=False)
+                else:
+                    # the other solver that works through A.N (gradient A.N x - A^H y); kappa <= 1 + 1/lamda <= 3
+                    np.random.seed(case["yseed"] % (2 ** 31))
+                    app = sp_.app.LinearLeastSquares(op, y.copy(), lamda=lam, solver="GradientMethod", max_iter=400, tol=0, show_pbar=False)
                 x = app.run()
         except Exception as e:
             r.fail("consumer:raises:%s" % sp["op"], "%s: %s" % (type(e).__name__, e))
